@@ -110,6 +110,17 @@ def DK2 (c m00 m01 m10 m11 t00 t11 t22 t01 : K) : List K :=
         (lsmul t01 (tens4 [c * (m00 * m01), c * (m10 * m11), 0, m00 * m11 + m10 * m01]
                           [c * (m00 * m01), c * (m10 * m11), 0, m00 * m11 + m10 * m01]))))
 
+/-- stored-component inner products (left associated, as the tracer's `out_dot`/`out_bilinear` compute them) -/
+def dot6 : List K → List K → K
+  | [a0, a1, a2, a3, a4, a5], [b0, b1, b2, b3, b4, b5] => a0 * b0 + a1 * b1 + a2 * b2 + a3 * b3 + a4 * b4 + a5 * b5
+  | _, _ => 0
+def dot4 : List K → List K → K
+  | [a0, a1, a2, a3], [b0, b1, b2, b3] => a0 * b0 + a1 * b1 + a2 * b2 + a3 * b3
+  | _, _ => 0
+def dot3 : List K → List K → K
+  | [a0, a1, a2], [b0, b1, b2] => a0 * b0 + a1 * b1 + a2 * b2
+  | _, _ => 0
+
 /-- positive and negative parts of a number (`DecompositionInPositiveAndNegativeParts.ixx`:
 `stensor_ppos`, `stensor_pneg`) in an ordered field -/
 def ppos [LinearOrder K] (x : K) : K := max x 0
